@@ -53,14 +53,24 @@ type c31Out struct {
 	Bool                 bool // Close / IsAccepted
 }
 
-type c31Stream struct{ closes int }
+// c31Stream: Close is a scheduling point (a real transport's stream Close may block for a
+// while); the caller may be holding the value's mutex at that moment, which the runtime2
+// overlay makes a durable wait for the others.
+type c31Stream struct {
+	closes int
+	s      *dsim.Sim
+}
 
 func (c *c31Stream) Read(b []byte) (int, error)         { return 0, nil }
 func (c *c31Stream) Write(b []byte) (int, error)        { return len(b), nil }
 func (c *c31Stream) SetReadDeadline(t time.Time) error  { return nil }
 func (c *c31Stream) SetWriteDeadline(t time.Time) error { return nil }
 func (c *c31Stream) SetDeadline(t time.Time) error      { return nil }
-func (c *c31Stream) Close() error                       { c.closes++; return nil }
+func (c *c31Stream) Close() error {
+	c.s.Yield("harness/stream-close", "")
+	c.closes++
+	return nil
+}
 
 type c31Mounted struct{ s *c31Stream }
 
@@ -115,9 +125,9 @@ var c31Model = porcupine.Model{
 func (w *c31World) Setup(s *dsim.Sim) {
 	w.s = s
 	t := s.Tape
-	w.strm = &c31Stream{}
+	w.strm = &c31Stream{s: s}
 	w.val = link_solicit.NewSolicitMountedStream(&c31Mounted{w.strm})
-	s.ArmFraction([]int{100, 100, 60, 0}[t.Draw(4, "arm-pct")], []string{"solicit/mounted/"})
+	s.ArmFraction([]int{100, 100, 60, 0}[t.Draw(4, "arm-pct")], []string{"solicit/mounted/", "harness/stream-close"})
 	n := 2 + t.Draw(3, "tasks")
 	for i := 0; i < n; i++ {
 		tk := &c31Task{id: i}
